@@ -2071,6 +2071,34 @@ impl Database {
         Ok(pages)
     }
 
+    /// Verification hook: a fingerprint (FNV-1a 64) of the bytes of every page of the table
+    /// tree rooted at `root`, in traversal order, read through the cache and write buffer
+    pub fn verif_tree_fingerprint(
+        &self,
+        root: crate::verif_types::VerifRoot,
+    ) -> Result<u64, StorageError> {
+        let header = root.map(|(page, checksum, length)| {
+            BtreeHeader::new(PageNumber::from_le_bytes(page.to_le_bytes()), checksum, length)
+        });
+        let tables = TableTree::new(
+            header,
+            PageHint::None,
+            Arc::new(TransactionGuard::untracked()),
+            PageResolver::new(self.mem.clone()),
+        )?;
+        let mut hash: u64 = 0xcbf2_9ce4_8422_2325;
+        let mem = self.mem.clone();
+        tables.visit_all_pages(|path| {
+            let page = mem.get_page(path.page_number(), PageHint::None)?;
+            for byte in crate::tree_store::Page::memory(&page) {
+                hash ^= u64::from(*byte);
+                hash = hash.wrapping_mul(0x0000_0100_0000_01b3);
+            }
+            Ok(())
+        })?;
+        Ok(hash)
+    }
+
     fn verif_page_list_table(
         &self,
         system_root: Option<BtreeHeader>,
